@@ -201,6 +201,38 @@ def from_tx_dispatch(ctx):
                     st.outcomes[name] += 1
                     if got != exp:
                         st.violation("C09/from_tx/" + name, {"nin": nin, "idx": idx, "ht": hex(ht)}, got, exp)
+    # taproot witness shapes: key path and script path, each with and without an annex (BIP341: the last element, when
+    # there are at least two and it starts with 0x50); the digest commits to the annex and, on the script path, to the leaf
+    from models import taproot_ref as TRm
+    leaf_script = b"\x20" + bytes(range(32)) + b"\xac"
+    control = bytes([0xC0]) + bytes(range(1, 33))
+    control_deep = control + bytes(32)
+    annexes = [None, b"\x50", b"\x50" + bytes(10), b"\x50" * 70]
+    for nin in (1, 2):
+        for idx in range(nin):
+            for path in ("key", "script", "script-deep", "script-c2"):
+                for annex in annexes:
+                    tx = shape(nin, 2, 2, 0, ctx.seed)
+                    T = mk(tx)
+                    ctl = {"script": control, "script-deep": control_deep, "script-c2": bytes([0xC2]) + control[1:]}.get(path)
+                    wit = [bytes(64)] if path == "key" else [bytes(64), leaf_script, ctl]
+                    if annex is not None:
+                        wit = wit + [annex]
+                    T.vin[idx].script_witness = Witness(wit)
+                    prev = [(1000 + j, SPK_TR if j == idx else SPK_W) for j in range(nin)]
+                    prevouts = [TxOut(a, sc, check_validity=False) for a, sc in prev]
+                    ext = b"" if path == "key" else S.tapleaf_ext(TRm.leaf_hash(ctl[0] & 0xFE, leaf_script))
+                    for ht in (0, 1, 2, 3, 0x81, 0x82, 0x83):
+                        st.evals += 1
+                        st.nontrivial += 1
+                        exp = S.taproot(tx, idx, prev, ht, annex=annex or b"", ext=ext)
+                        try:
+                            got = sig_hash.from_tx(prevouts, T, idx, ht)
+                        except errs as e:
+                            got = None
+                        st.outcomes[("p2tr", path, annex is not None)] += 1
+                        if got != exp:
+                            st.violation(f"C09/from_tx/p2tr-{path}{'-annex' if annex is not None else ''}", {"nin": nin, "idx": idx, "ht": hex(ht), "annex_len": len(annex) if annex else None}, got, exp)
     # refusals: p2sh with no redeem script in script_sig; prevouts of the wrong length
     tx = shape(1, 1, 2, 0)
     T = mk(tx)
